@@ -1,7 +1,7 @@
 (* C20 correspondence: the harness's observations of the real
    rangeRetryReader, compared with the model and judged by the validator. *)
 From Apko Require Export Base.Prelude Model.Transport Generated.Transport Generated.TransportShape Spec.TransportSpec
-  Model.TransportReq Model.TransportCache.
+  Model.TransportReq Model.TransportCache Model.TransportCallers.
 Open Scope string_scope. Open Scope list_scope.
 
 (* same formula as genData in harness/cmd/c20 *)
@@ -131,6 +131,36 @@ Definition check_index (c : index_case) : list string :=
              tag_if (negb (Nat.eqb (List.length (tmps d2)) (o_tmps2 c))) "mismatch:cached-index-second-temporaries"
          | _ => ["mismatch:model-out-of-fuel"]
          end
+     | _ => ["mismatch:model-out-of-fuel"]
+     end
+   else []).
+
+(* ---- fetchRepositoryIndex over the scripted transport (stage callers) ---------- *)
+(* k_res: what the call returned (None = an error); k_ranges: the Range values of every request *)
+Record caller_case := {
+  k_kind : skind; k_bare : bool; k_ebody : list N; k_seed : nat; k_len : nat;
+  k_reads : list rd_ev; k_conns : list conn_ev;
+  k_res : option (list N); k_ranges : list (list nat)
+}.
+
+Definition check_caller (c : caller_case) : list string :=
+  let dat := gen_data (k_seed c) (k_len c) in
+  let srv := {| base := {| data := dat; kind := k_kind c; bare := k_bare c |}; ebody := k_ebody c |} in
+  (* c20_index_fetch_complete_or_error / c20_readall_complete_or_error on the real caller:
+     an error, or exactly the server's bytes — whatever ran out *)
+  match k_res c with
+  | Some b =>
+      tag_if (negb (is_prefix b dat)) "viol:delivered-not-prefix-of-server-bytes" ++
+      tag_if (is_prefix b dat && negb (list_eqb N.eqb b dat)) (narrow_eof (unframed (k_conns c)) "viol:eof-before-complete")
+  | None => []
+  end ++
+  (if Nat.ltb (k_len c) readall_cap then
+     match index_fetch_r readall_error_returned code_shape srv retry_schedule (k_reads c) (k_conns c) with
+     | Ok (so, r) =>
+         tag_if (negb (bytes_opt_eqb r (k_res c))) "mismatch:index-fetch-result" ++
+         tag_if (negb (list_eqb (list_eqb Nat.eqb)
+                         (match so with Some s => List.map snd (rsent s) | None => k_ranges c end) (k_ranges c)))
+           "mismatch:index-fetch-range-requests"
      | _ => ["mismatch:model-out-of-fuel"]
      end
    else []).
